@@ -76,13 +76,23 @@ theorem c16_continues (cfg : Cfg) (hc : CfgOk cfg) (t : Tree) (hinv : TreeInv cf
 
 /-! ## every history of a persistent tree -/
 
-/-- the invariants a persistent tree carries between operations (all but the room in the file):
-C10's ordering and page invariants, statistics that agree with the structure, root on page 1 -/
+/-- the page sizes covered: positive, at most 2^19 (the first pages must fit the initial 1 MiB file) -/
+def PsOk (cfg : Cfg) : Prop := 0 < cfg.pageSize ∧ cfg.pageSize ≤ 2 ^ 19
+
+/-- the invariants a persistent tree carries between operations: C10's ordering and page
+invariants, statistics that agree with the structure, root on page 1, and the pages in use fit
+the mapped data which fits the file behind its 8 bytes of padding (`AllocFits`) -/
 structure Persist (cfg : Cfg) (t : Tree) : Prop where
   inv : TreeInv cfg t
   pid : PidInv t
   stats : StatsOk t
   root : t.root.pid = 1
+  fits : AllocFits cfg t.a
+
+/-- `Persist` implies the hypothesis `FileOk` of `c16_roundtrip` (sizes below 2^61). -/
+theorem persist_fileOk (cfg : Cfg) (hps : PsOk cfg) (t : Tree) (h : Persist cfg t) (hb : Bounded cfg t.a) :
+    FileOk cfg t :=
+  ⟨hps.1, by have := hps.2; omega, by have := hb.1; omega, by have := h.fits.2; omega, h.fits.fileOk_fits⟩
 
 /-- operations on a persistent tree (`Op.reopen` = clean `Close` + `NewTreePersistent`) -/
 inductive Op where
@@ -91,58 +101,96 @@ inductive Op where
   | iter (f : Key → Val → Val)
   | reopen
 
+def Op.legal : Op → Prop
+  | .set k _ => setKeyPanic k = false
+  | _ => True
+
 def applyOp (cfg : Cfg) (t : Tree) : Op → Tree
   | .set k v => set cfg t k v
   | .del ts => deleteBelow t ts
   | .iter f => iterateKV t f
   | .reopen => (reinit cfg (encode t)).getD t
 
-/-- A fresh persistent tree satisfies `Persist`, and every operation preserves it — including
-reopening, at any point of any history, with recycled pages on the free list.  Side conditions per
-step: the key of a `Set` is legal; fewer than 2^64 pages ever allocated; when reopening, the
-pages in use fit the file (`FileOk`). -/
-theorem c16_persist_step (cfg : Cfg) (hc : CfgOk cfg) (t : Tree) (h : Persist cfg t) (op : Op)
-    (hl : match op with
-      | .set k _ => setKeyPanic k = false
-      | .reopen => FileOk cfg t
-      | _ => True)
-    (hn : t.a.nextPage ≤ 2 ^ 64) :
-    Persist cfg (applyOp cfg t op) ∧
-    (match op with
-      | .reopen => reinit cfg (encode t) = some (applyOp cfg t op) ∧ (∀ k, abs (applyOp cfg t op) k = abs t k) ∧
-          stats cfg (applyOp cfg t op) = { stats cfg t with allocated := t.a.curSz - 8 } ∧
-          walk (applyOp cfg t op) = walk t ∧ (applyOp cfg t op).a.free = t.a.free ∧
-          (applyOp cfg t op).a.nextPage = t.a.nextPage
-      | _ => True) := by
+/-- **`c16_reopen_exact`** — for a tree satisfying `Persist` (hence at any point of any history,
+with recycled pages on the free list) a clean close + reopen is an exact round trip: `reinit` of
+the file succeeds with the same labelled tree (walk), frontier, free list (head and order),
+statistics (all but the mapped size) and mapping.  No hypothesis about room in the file: that the
+pages in use fit is part of the invariant (`newNode` grows the buffer first).  Side condition: the
+sizes stay below 2^61 (they fit a Go `int`). -/
+theorem c16_reopen_exact (cfg : Cfg) (hc : CfgOk cfg) (hps : PsOk cfg) (t : Tree) (h : Persist cfg t)
+    (hb : Bounded cfg t.a) :
+    reinit cfg (encode t) = some (reopened t) ∧ applyOp cfg t .reopen = reopened t ∧
+    Persist cfg (reopened t) ∧ (∀ k, abs (reopened t) k = abs t k) ∧
+    stats cfg (reopened t) = { stats cfg t with allocated := t.a.curSz - 8 } ∧
+    walk (reopened t) = walk t ∧ (reopened t).a.free = t.a.free ∧ (reopened t).a.nextPage = t.a.nextPage := by
+  have hf := persist_fileOk cfg hps t h hb
+  have hr := reinit_encode hc t h.inv h.pid h.root hf
+  obtain ⟨s1, s2⟩ := h.stats
+  refine ⟨hr, by simp [applyOp, hr], ⟨⟨h.inv.root_inner, h.inv.ok, rfl⟩, ⟨h.pid.1, h.pid.2⟩, ⟨rfl, rfl⟩, h.root, ?_⟩,
+    fun _ => rfl, ?_, rfl, rfl, rfl⟩
+  · have h1 := hf.fits
+    have h2 := hf.sz_ge
+    exact ⟨h1, by show t.a.curSz - 8 + 8 ≤ t.a.curSz; omega⟩
+  · simp [stats, reopened, s1, s2]
+
+/-- **`c16_persist_step`** — every operation, including reopening, preserves `Persist`.  Side
+conditions: the key of a `Set` is legal; the sizes before and after stay below 2^61. -/
+theorem c16_persist_step (cfg : Cfg) (hc : CfgOk cfg) (hps : PsOk cfg) (t : Tree) (h : Persist cfg t) (op : Op)
+    (hl : op.legal) (hb : Bounded cfg t.a) (hb' : Bounded cfg (applyOp cfg t op).a) :
+    Persist cfg (applyOp cfg t op) := by
+  have hn : t.a.nextPage ≤ 2 ^ 64 := by
+    have h1 : t.a.nextPage * 1 ≤ t.a.nextPage * cfg.pageSize := Nat.mul_le_mul_left _ hps.1
+    have := hb.2; omega
   cases op with
   | set k v =>
     have hs := set_stats hc t k v h.inv hl h.stats
-    exact ⟨⟨(set_spec hc t k v h.inv hl).1, set_pidInv hc t k v h.inv hl h.pid, hs.1, hs.2.trans h.root⟩, trivial⟩
+    exact ⟨(set_spec hc t k v h.inv hl).1, set_pidInv hc t k v h.inv hl h.pid, hs.1, hs.2.trans h.root,
+      set_fits hc t k v h.inv hl h.fits hb'⟩
   | del ts =>
     have hp := h.pid.posPid hn
     have hs := deleteBelow_stats hc t ts h.inv hp h.stats
-    exact ⟨⟨(deleteBelow_spec hc t h.inv hp ts).1, deleteBelow_pidInv hc t ts h.inv h.pid hn, hs.1,
-      hs.2.trans h.root⟩, trivial⟩
+    exact ⟨(deleteBelow_spec hc t h.inv hp ts).1, deleteBelow_pidInv hc t ts h.inv h.pid hn, hs.1,
+      hs.2.trans h.root, deleteBelow_fits hc t ts h.inv hp h.fits⟩
   | iter f =>
     have hs := iterateKV_stats t f h.inv h.stats
-    exact ⟨⟨(iterateKV_spec t h.inv f).1, iterateKV_pidInv t f h.inv h.pid, hs.1, hs.2.trans h.root⟩, trivial⟩
+    exact ⟨(iterateKV_spec t h.inv f).1, iterateKV_pidInv t f h.inv h.pid, hs.1, hs.2.trans h.root,
+      iterateKV_fits t f h.inv h.fits⟩
   | reopen =>
-    have hr := reinit_encode hc t h.inv h.pid h.root hl
-    have he : applyOp cfg t .reopen = reopened t := by simp [applyOp, hr]
-    rw [he]
-    obtain ⟨s1, s2⟩ := h.stats
-    refine ⟨⟨⟨h.inv.root_inner, h.inv.ok, rfl⟩, ⟨h.pid.1, h.pid.2⟩, ⟨rfl, rfl⟩, h.root⟩,
-      hr, fun _ => rfl, ?_, rfl, rfl, rfl⟩
-    simp [stats, reopened, s1, s2]
+    obtain ⟨_, he, hp, _⟩ := c16_reopen_exact cfg hc hps t h hb
+    rw [he]; exact hp
 
-theorem c16_persist_new (cfg : Cfg) (hc : CfgOk cfg) : Persist cfg (newTreeFile cfg) :=
-  ⟨(initRoot_spec hc _ rfl).1, newTreeFile_pidInv hc, (newTreeFile_stats hc).1, (newTreeFile_stats hc).2⟩
+theorem c16_persist_new (cfg : Cfg) (hc : CfgOk cfg) (hps : PsOk cfg) (hb : Bounded cfg (newTreeFile cfg).a) :
+    Persist cfg (newTreeFile cfg) :=
+  ⟨(initRoot_spec hc _ rfl).1, newTreeFile_pidInv hc, (newTreeFile_stats hc).1, (newTreeFile_stats hc).2,
+   newTreeFile_fits hc hps.2 hb⟩
+
+def runOps (cfg : Cfg) (t : Tree) (ops : List Op) : Tree := ops.foldl (applyOp cfg) t
+
+/-- **`c16_history`** — every history of legal `Set` / `DeleteBelow` / `IterateKV` / reopen on a new
+persistent tree (sizes of all intermediate states below 2^61) ends in a state satisfying
+`Persist`; hence at every point of every history a clean close + reopen is the exact round trip
+of `c16_reopen_exact`, without any further hypothesis. -/
+theorem c16_history (cfg : Cfg) (hc : CfgOk cfg) (hps : PsOk cfg) (ops : List Op) (hl : ∀ op ∈ ops, op.legal)
+    (hb : ∀ pre, pre <+: ops → Bounded cfg (runOps cfg (newTreeFile cfg) pre).a) :
+    Persist cfg (runOps cfg (newTreeFile cfg) ops) := by
+  have key : ∀ (ops : List Op) (t : Tree), Persist cfg t → (∀ op ∈ ops, op.legal) →
+      (∀ pre, pre <+: ops → Bounded cfg (runOps cfg t pre).a) → Persist cfg (runOps cfg t ops) := by
+    intro ops
+    induction ops with
+    | nil => intro t h _ _; exact h
+    | cons op rest ih =>
+      intro t h hl hb
+      have hb0 := hb [] List.nil_prefix
+      have hb1 := hb [op] (by simp)
+      exact ih (applyOp cfg t op) (c16_persist_step cfg hc hps t h op (hl op (by simp)) hb0 hb1)
+        (fun o ho => hl o (by simp [ho])) (fun pre hpre => hb (op :: pre) (List.cons_prefix_cons.mpr ⟨rfl, hpre⟩))
+  exact key ops _ (c16_persist_new cfg hc hps (hb [] List.nil_prefix)) hl hb
 
 /-- Where the room in the file (`FileOk.fits`) comes from: `newNode`, the only place that moves
 the frontier, grows the buffer first (generated comparisons of `newNode` and `Buffer.Grow`), so
 "the pages in use fit the data and the data fits the buffer behind its 8 bytes of padding" is
-kept.  (The threading of this single-step fact through `Set` is tied by the trace validation of
-`Stats.Allocated` only, hence `c16_roundtrip` keeps `FileOk` as a hypothesis.) -/
+kept.  Threaded through every operation as `Geo` (`RV/Proofs/TreeGeo.lean`), it makes `AllocFits`
+part of `Persist`, which discharges `FileOk` (`persist_fileOk`). -/
 theorem c16_newNode_keeps_room (cfg : Cfg) (a : Alloc) (h : AllocFits cfg a) (hb1 : a.curSz < 2 ^ 61)
     (hb2 : (a.nextPage + 1) * cfg.pageSize < 2 ^ 61) :
     AllocFits cfg (newNode cfg a).2 ∧ (newNode cfg a).2.nextPage * cfg.pageSize ≤ (newNode cfg a).2.curSz - 8 :=
@@ -168,6 +216,14 @@ def tinyFile : Tree :=
 /-- a tree with two levels of inner nodes and released pages on the free list -/
 def sample : Tree :=
   deleteBelow ((List.range 12).foldl (fun t k => set cfg80 t (w (k + 1)) (w (10 * (k + 1)))) tinyFile) 95#64
+
+/-- Non-vacuity of the side conditions of the history theorems: the default and the smallest
+page size are covered, and the concrete sample is within the size bound. -/
+example : PsOk (Cfg.ofPageSize 4096) ∧ PsOk cfg80 ∧ CfgOk (Cfg.ofPageSize 4096) ∧ CfgOk cfg80 ∧
+    Bounded cfg80 sample.a ∧ AllocFits cfg80 sample.a := by
+  refine ⟨⟨by decide, by decide⟩, ⟨by decide, by decide⟩, ⟨by decide, by decide⟩, ⟨by decide, by decide⟩, ?_, ?_⟩
+  · exact ⟨by decide +kernel, by decide +kernel⟩
+  · exact ⟨by decide +kernel, by decide +kernel⟩
 
 /-- Concrete round trip (kernel-evaluated): reopening the sample tree gives back the same
 labelled tree, frontier, free list (head and order) and statistics; the hypotheses of
